@@ -27,22 +27,22 @@ structure OEv where
   tag : String
   res : ORes
   clock : Snap
-  caches : List (OV × Option Int × Nat × Nat)   -- per generator: _Dynamic_last, _Dynamic_time, len of both saved lists
+  caches : List (OV × Option TimeV × Nat × Nat)   -- per generator: _Dynamic_last, _Dynamic_time, len of both saved lists
   touched : Option Touched
   gens : List Nat
   deriving Repr
 
 structure Frame where
   inst : String
-  caches : List (OV × Option Int × Nat × Nat)   -- as reported right after the push
+  caches : List (OV × Option TimeV × Nat × Nat)   -- as reported right after the push
   gens : List Nat
   dirty : Bool
 
 structure SpecSt where
   prev : OEv
-  table : List ((String × Int × Int) × OV)      -- (name, seed, time) ↦ value read
-  lastRead : Option (String × Int × ORes)       -- tag, time, result of the read just before (inspections aside)
-  lastByGen : List (Nat × Int × ORes)           -- per generator: time and result of its latest read/force
+  table : List ((String × Int × TimeV) × OV)      -- (name, seed, time) ↦ value read
+  lastRead : Option (String × TimeV × ORes)       -- tag, time, result of the read just before (inspections aside)
+  lastByGen : List (Nat × TimeV × ORes)           -- per generator: time and result of its latest read/force
   ctxStack : List Snap                          -- clock seen just before each open `with`
   frames : List Frame
   failure : Option String
@@ -60,7 +60,7 @@ def checkTd (dynTD : Bool) (st : SpecSt) (i : Nat) (e : OEv) : SpecSt :=
   if !dynTD || !(isRead e.tag || isForce e.tag) then st else
   -- (name, seed, time the value is a function of): a TimeSampledFn shares its table with the
   -- distribution it samples, at the sample time
-  let key : Option (String × Int × Int) := match e.touched with
+  let key : Option (String × Int × TimeV) := match e.touched with
     | some { g := _, kind := .td n s } => some (n, s, e.clock.time)
     | some { g := _, kind := .sampled n s p o } => some (n, s, sampleTime e.clock.time p o)
     | _ => none
@@ -132,8 +132,8 @@ def checkReadKeepsClock (st : SpecSt) (i : Nat) (e : OEv) : SpecSt :=
   if e.clock.time != st.prev.clock.time then
     fail st s!"event {i} ({e.tag}): the time was {st.prev.clock.time} before and is {e.clock.time} after"
   else if e.clock.timestep != st.prev.clock.timestep || e.clock.untl != st.prev.clock.untl
-      || e.clock.depth != st.prev.clock.depth then
-    fail st s!"event {i} ({e.tag}): timestep / until / context stack changed"
+      || e.clock.depth != st.prev.clock.depth || e.clock.timeType != st.prev.clock.timeType then
+    fail st s!"event {i} ({e.tag}): timestep / until / context stack / time type changed"
   else { st with checked := st.checked + 1 }
 
 /-- `inspect_never_advances` -/
